@@ -6,8 +6,10 @@ import (
 	"encoding/json"
 	"flag"
 	"fmt"
+	"io"
 	"math/rand"
 	"net"
+	"net/http"
 	"os"
 	"os/exec"
 	"path/filepath"
@@ -42,10 +44,56 @@ type sysStep struct {
 	Preload bool       `json:"preload"`
 	Via     string     `json:"via"`
 	Qs      []sysQuery `json:"qs"`
-	T       struct {
-		Exit int               `json:"exit"`
-		Out  []json.RawMessage `json:"out"`
-	} `json:"t"`
+	T       sysTerm    `json:"t"`
+}
+
+// sysTerm: the terminal contents; out is a list (blocks, tables, records) or, for metrics, a record.
+type sysTerm struct {
+	Exit   int
+	Out    []json.RawMessage
+	OutRaw json.RawMessage
+}
+
+func (t *sysTerm) UnmarshalJSON(b []byte) error {
+	var raw struct {
+		Exit int             `json:"exit"`
+		Out  json.RawMessage `json:"out"`
+	}
+	if err := json.Unmarshal(b, &raw); err != nil {
+		return err
+	}
+	t.Exit, t.OutRaw = raw.Exit, raw.Out
+	if len(raw.Out) > 0 && raw.Out[0] == '[' {
+		return json.Unmarshal(raw.Out, &t.Out)
+	}
+	return nil
+}
+
+// scrape reads the server's /metrics page: metric name (without labels) -> value.
+func scrape(addr string) (int, map[string]float64) {
+	vals := map[string]float64{}
+	c := &http.Client{Timeout: 10 * time.Second}
+	resp, err := c.Get("http://" + addr + "/metrics")
+	if err != nil {
+		return 1, vals
+	}
+	defer resp.Body.Close()
+	body, _ := io.ReadAll(resp.Body)
+	if resp.StatusCode != 200 {
+		return 1, vals
+	}
+	for _, ln := range strings.Split(string(body), "\n") {
+		if strings.HasPrefix(ln, "#") || !strings.HasPrefix(ln, "updog_") {
+			continue
+		}
+		f := strings.Fields(ln)
+		if len(f) == 2 && !strings.Contains(f[0], "{") {
+			if v, err := strconv.ParseFloat(f[1], 64); err == nil {
+				vals[f[0]] = v
+			}
+		}
+	}
+	return 0, vals
 }
 
 type sysBeh struct {
@@ -107,6 +155,7 @@ type sysRun struct {
 	d    sysDict
 	srv  *exec.Cmd
 	addr string
+	dbg  string
 	done chan error
 	log  []string
 }
@@ -157,8 +206,8 @@ func (r *sysRun) stopServer() {
 
 // startServer returns the exit status the command line shows: 0 = serving, 1 = gave up.
 func (r *sysRun) startServer(cache, preload bool) (int, string) {
-	r.addr = freePort()
-	args := []string{"server", "-l", r.addr, "-d", freePort(), "-f", r.path, fmt.Sprintf("--enable-cache=%v", cache)}
+	r.addr, r.dbg = freePort(), freePort()
+	args := []string{"server", "-l", r.addr, "-d", r.dbg, "-f", r.path, fmt.Sprintf("--enable-cache=%v", cache)}
 	if preload {
 		args = append(args, "-p")
 	}
@@ -491,6 +540,40 @@ func runSysBehaviour(bin, dir string, d sysDict, b sysBeh, rng *rand.Rand) (mism
 			}
 		case "stop":
 			r.stopServer()
+		case "metrics":
+			code, vals := 1, map[string]float64{}
+			if r.srv != nil {
+				code, vals = scrape(r.dbg)
+			}
+			r.log = append(r.log, "GET /metrics")
+			if code != want {
+				return fail(i, fmt.Sprintf("metrics: status %d, specification says %d", code, want), nil), steps, okKinds
+			}
+			if want == 0 {
+				var exp struct {
+					Execs int  `json:"execs"`
+					Cache bool `json:"cache"`
+				}
+				if err := json.Unmarshal(st.T.OutRaw, &exp); err != nil {
+					return fail(i, "harness: "+err.Error(), nil), steps, okKinds
+				}
+				_, hasCache := vals["updog_server_cache_get_calls_total"]
+				execs, hasExecs := vals["updog_server_query_exec_duration_seconds_count"]
+				why := ""
+				switch {
+				case !hasExecs || int(execs) != exp.Execs:
+					why = fmt.Sprintf("Execute count %v, specification says %d", execs, exp.Execs)
+				case hasCache != exp.Cache:
+					why = fmt.Sprintf("cache counters present=%v, cache enabled=%v", hasCache, exp.Cache)
+				case hasCache && vals["updog_server_cache_get_calls_total"] != vals["updog_server_cache_hits_total"]+vals["updog_server_cache_misses_total"]:
+					why = "cache get calls != hits + misses"
+				case hasCache && vals["updog_server_cache_put_calls_total"] > vals["updog_server_cache_misses_total"]:
+					why = "more cache puts than misses"
+				}
+				if why != "" {
+					return fail(i, why, map[string]any{"metrics": vals}), steps, okKinds
+				}
+			}
 		case "client", "driver":
 			var qs []string
 			for k, q := range st.Qs {
